@@ -341,8 +341,12 @@ def run_line(state, sx):
 
 
 def compare(case, i, line, ir, mr):
-    if proto.same_reply(ir, mr):
+    # type-strict (1 is not 1.0): filtering must hand the cells through unchanged, and find_ returns the FIRST selected
+    # of several equal values (set() keeps the first inserted of == elements)
+    if proto.same_reply(ir, mr, numeric=False):
         return None
+    if proto.same_reply(ir, mr):
+        return ('divergence', 'equal values of different type: implementation %s, model %s' % (ir[:200], mr[:200]))
     if mr == 'bad-op' or ir == 'bad-op':
         return ('divergence', 'outside the modelled universe: implementation %s, model %s' % (ir[:200], mr[:200]))
     if ir.startswith('err') and mr.startswith('err'):
